@@ -20,9 +20,9 @@ RACE_KEYS = ("race:satb:snapshot-lost", "race:satb:not-logged", "race:satb:spuri
              "race:satb:panic", "race:satb:crash", "race:satb:lean-verdict", "satb:seq:snapshot-lost", "satb:seq:not-logged",
              "satb:seq:spurious-record", "satb:seq:buffer-count")
 META = {
-    "text": "SATB model (Model/SATB.lean): an interleaving transition system of any number of mutator and marker threads in which the barrier's unlog-bit test, each field read of the slow path, the log-bit clear, the store, the marker's pop+mark and each field read of its scan are separate atomic steps; invariant `Inv` (every snapshot edge is either still in place and its holder unscanned/unlogged, or its target is marked or grey) is preserved by every step of every thread (`step_inv`, `exec_inv`), so at the end of marking (grey empty, threads idle) every object reachable in the InitialMark snapshot is marked (`satb_complete`), objects allocated during marking are marked (`alloc_during_marking_survives`), marks are never removed (`marked_mono`). Real collections: ConcurrentImmix x {1,4} workers with yield points armed; the program builds a 10^4-object graph, allocates until the InitialMark pause (recognised in the event log: GcFinishedEnd with concurrent work scheduled), then keeps moving the only reference to an object into another (possibly already scanned) object and clearing the original, deleting references, moving them to roots, dropping roots and allocating, with `sleep`/`poll` in between, until the FinalMark pause; then `is_mmtk_object` + header words of every snapshot-reachable object and every object allocated during marking (also those dropped meanwhile) are checked, and the snapshots after InitialMark, FinalMark and a following full GC are compared with the shadow heap.",
-    "note": "Level: proof of the model for all interleavings, partial w.r.t. the code (the real interleaving of barrier and marker is sampled). hx_gc's `write` on this plan is pre-barrier + plain store (known defect F-D: the subsuming barrier's post half is unimplemented!()); `copyrange` and NonMoving are kept out (F-D family, gc:concimmix-nonmoving-not-reset).",
-    "technique": "Lean 4 proof (interleaving invariant, unbounded threads) + run-time verification of real concurrent marking cycles by the snapshot monitor + independent oracle",
+    "text": "SATB model (Model/SATB.lean): an interleaving transition system of any number of mutator and marker threads in which the barrier's unlog-bit test, each field read of the slow path, the log-bit clear, the store, the marker's pop+mark and each field read of its scan are separate atomic steps; invariant `Inv` (every snapshot edge is either still in place and its holder unscanned/unlogged, or its target is marked or grey) is preserved by every step of every thread (`step_inv`, `exec_inv`), so at the end of marking (grey empty, threads idle) every object reachable in the InitialMark snapshot is marked (`satb_complete`), objects allocated during marking are marked (`alloc_during_marking_survives`), marks are never removed (`marked_mono`). Real collections: ConcurrentImmix x {1,4} workers with yield points armed; the program builds a 10^4-object graph, allocates until the InitialMark pause (recognised in the event log: GcFinishedEnd with concurrent work scheduled), then keeps moving the only reference to an object into another (possibly already scanned) object and clearing the original, deleting references, moving them to roots, dropping roots and allocating, with `sleep`/`poll` in between, until the FinalMark pause; then `is_mmtk_object` + header words of every snapshot-reachable object and every object allocated during marking (also those dropped meanwhile) are checked, and the snapshots after InitialMark, FinalMark and a following full GC are compared with the shadow heap. Racing barriers (Model/SATBRace.lean, Props/C12Race.lean): any number of mutators store into ONE unlogged object, each store being unlog-bit load -> [field reads one by one into the mutator-local buffer -> unconditional unlog-bit store] -> store, freely interleaved; for every interleaving a snapshot value that was overwritten is in some SATB buffer (`racing_barriers_record_snapshot`), a logged object has all its snapshot referents recorded (`logged_implies_recorded`), at quiescence the object is logged (`quiescent_logged`), nothing spurious is recorded (`recorded_was_field_value`, `field_value_origin`); with the two halves of the slow path swapped a 9-step schedule loses the referent (`clear_first_loses_snapshot`, by `decide`). Tie to the code: hx_unit `satb` drives a real ConcurrentImmix MMTK<VerifVM> in the marking-active state — exact sequential differential of write/probable-write/buffer contents against the model, and real-thread races (2..8 OS threads, each with its own bound mutator, 1..16 fields, spin rendezvous + random stagger + seeded yield points, thousands of rounds per case) whose every distinct outcome (unlog bit, fields, every mutator's SATB buffer) is judged by the executable Lean verdict `Mmtk.SATBRace.verdict` (sound: `outcome_sound`) and by an independent Python oracle.",
+    "note": "Level: proof of the model for all interleavings, partial w.r.t. the code (the real interleavings of barrier and marker, and of racing barriers, are sampled). The races need the add-only hooks verif::conc::satb (take/len of the mutator-local SATB buffer, set_concurrent_marking_state). hx_gc's `write` on this plan is pre-barrier + plain store (known defect F-D: the subsuming barrier's post half is unimplemented!()); `copyrange` and NonMoving are kept out (F-D family, gc:concimmix-nonmoving-not-reset).",
+    "technique": "Lean 4 proof (interleaving invariants, unbounded threads) + run-time verification of real concurrent marking cycles by the snapshot monitor + exact sequential differential and real-thread races of the SATB barrier judged by a proved-sound Lean verdict + independent oracle",
     "category": "proof",
 }
 
@@ -116,12 +116,15 @@ def d_c12(ctx, args):
         """one mutator step on the interesting region; returns the number of barriered writes"""
         # reachable part of the region: from every root but the list head, plus the super hub (the list tail holds it;
         # list nodes are never written by the mutator steps) — avoids walking the whole list at every step
-        reach, stack = set(), [v for k, v in sh.roots.items() if k != ("vm", 1)] + [lo]
-        while stack:
-            y = stack.pop()
-            if y not in reach:
-                reach.add(y)
-                stack += [f for f in sh.objs[y]["fields"] if f is not None]
+        def reach_set():
+            reach, stack = set(), [v for k, v in sh.roots.items() if k != ("vm", 1)] + [lo]
+            while stack:
+                y = stack.pop()
+                if y not in reach:
+                    reach.add(y)
+                    stack += [f for f in sh.objs[y]["fields"] if f is not None]
+            return reach
+        reach = reach_set()
         pool = [i for i in interesting if i in reach and sh.objs[i]["nf"]]
         if not pool:
             return 0
@@ -148,12 +151,17 @@ def d_c12(ctx, args):
             return 0
         slot = rnd.randrange(30, 40)                # allocate during marking; link it in, or drop it at once
         n = alloc(rnd.choice([0, 1, 2]), rnd.choice([0, 16, 64, 200]), slot)
+        # the allocation re-used root slot `slot`: if that slot held the only path to x, x (and what only x reaches) is
+        # garbage now — hx_gc forgets garbage ids at the next pause (`err unknown-id`), so it must not be written any more
+        live = reach_set()
         w = 0
         if sh.objs[n]["nf"] and fs:
-            write(n, 0, sh.objs[x]["fields"][rnd.choice(fs)])
-            w += 1
+            y = sh.objs[x]["fields"][rnd.choice(fs)]
+            if y in live:
+                write(n, 0, y)
+                w += 1
         interesting.append(n)
-        if rnd.random() < 0.5:
+        if rnd.random() < 0.5 and x in live:
             write(x, rnd.randrange(sh.objs[x]["nf"]), n)
             w += 1
         if rnd.random() < 0.5:
